@@ -183,3 +183,13 @@ Example paced_example :
   paced 900 0 true [Rec okp; Sync; Tick 900; NodeAppear true; Rec okp; Sync; NReady true; Rec okp] = true /\
   paced 900 0 true [Rec okp; Rec okp] = false /\ paced 900 0 true [Rec okp; Sync; Tick 901; Rec okp] = false.
 Proof. vm_compute. repeat split; reflexivity. Qed.
+
+(* the shape real providers produce: the capacity error sits inside a CreateError and an fmt.Errorf
+   wrapper; errors.As finds it, the claim is deleted and Launched is left alone *)
+Example wrapped_capacity_error :
+  let pl := mkPlan WOk (PFail [YCreateErr; YWrap; YInsufficient]) WOk false HReady WOk WOk false WOk WOk WOk WOk WOk WOk WOk false WOk WOk in
+  map fr_effs (trace k0 [Rec pl]) =
+    [[EFin WOk; ECreate (PFail [YCreateErr; YWrap; YInsufficient]); EDelLaunch WOk; EPatch WOk; EStatus WOk]] /\
+  option_map (fun c => (c_del c, c_l c)) (pc (final k0 [Rec pl])) = Some (true, LAwait) /\
+  is_cap (PFail [YCreateErr; YWrap; YInsufficient]) = true /\ is_cap (PFail [YWrap; YCreateErr]) = false.
+Proof. vm_compute. repeat split; reflexivity. Qed.
